@@ -15,7 +15,7 @@ import z3
 from .values import *
 from .intr_serde import jnull, jbool, jnum, jstr, jarr, jobj, py_to_json
 
-TOK = re.compile(r"\s*(===|!==|==|!=|<=|>=|&&|\|\||=>|[-+!<>(){}\[\],:;.]|\d+|\"(?:[^\"\\]|\\.)*\"|'(?:[^'\\]|\\.)*'|[A-Za-z_$][\w$]*)")
+TOK = re.compile(r"\s*(===|!==|==|!=|<=|>=|&&|\|\||=>|[-+!<>(){}\[\],:;.=]|\d+|\"(?:[^\"\\]|\\.)*\"|'(?:[^'\\]|\\.)*'|[A-Za-z_$][\w$]*)")
 
 
 class JsException(Exception):
@@ -23,11 +23,13 @@ class JsException(Exception):
 
 
 class JsEval:
-    def __init__(self, I, lookup, setter=None, env_lookup=None):
+    def __init__(self, I, lookup, setter=None, env_lookup=None, env_setter=None, proc_setter=None):
         self.I = I
         self.lookup = lookup  # name -> JSON value or None (undefined)
         self.setter = setter
         self.env_lookup = env_lookup
+        self.env_setter = env_setter
+        self.proc_setter = proc_setter
 
     def tokenize(self, s):
         out = []
@@ -263,8 +265,28 @@ class JsEval:
             self.expect(".")
             name = self.peek()
             self.i += 1
+            if self.peek() == "=":
+                self.i += 1
+                v = self.expr()
+                if self.env_setter is None:
+                    raise Unsupported("js model: $env assignment without setter")
+                self.env_setter(name, v)
+                return v
             v = self.env_lookup(name) if self.env_lookup else None
             return v if v is not None else jnull()
+        if t == "$set_process_var":
+            self.expect("(")
+            name = self.peek()[1:-1]
+            self.i += 1
+            self.expect(",")
+            v = self.expr()
+            self.expect(")")
+            if self.proc_setter is None:
+                raise Unsupported("js model: $set_process_var without setter")
+            self.proc_setter(name, v)
+            return jnull()
+        if t.startswith("$"):
+            raise Unsupported("js model: unmodelled global %s" % t)
         if re.match(r"[A-Za-z_$][\w$]*$", t):
             return self.var(t)
         raise Unsupported("js model: token %r" % t)
